@@ -991,6 +991,14 @@ def _sl_step(ctx, s):
     return s.step
 
 
+@lib('numpy.flatnonzero')
+def np_flatnonzero(ctx, a):
+    a = arr(ctx, a)
+    if a.ndim != 1:
+        raise Unsupported('flatnonzero of rank > 1')
+    return A.WhereIdx(A.elementwise(ctx, lambda x: S.truth(x), [a], dtype='bool'))
+
+
 @lib('numpy.nonzero')
 def np_nonzero(ctx, a):
     a = arr(ctx, a)
@@ -1427,6 +1435,34 @@ def np_finfo(ctx, dt):
 @lib('attr:FInfo.eps')
 def _finfo_eps(ctx, f):
     return Fraction(1, 2 ** 52)
+
+
+class IInfo:
+    def __init__(self, bits, signed=True):
+        self.max = 2 ** (bits - 1) - 1 if signed else 2 ** bits - 1
+        self.min = -2 ** (bits - 1) if signed else 0
+
+
+@lib('numpy.iinfo')
+def np_iinfo(ctx, dt):
+    from .interp import ClassRef, Builtin
+    name = dt.name if isinstance(dt, (A.DType, ClassRef, Builtin)) else str(dt)
+    name = name.split('.')[-1]
+    table = {'int8': (8, True), 'int16': (16, True), 'int32': (32, True), 'int64': (64, True), 'int': (64, True),
+             'uint8': (8, False), 'uint16': (16, False), 'uint32': (32, False), 'uint64': (64, False)}
+    if name not in table:
+        raise Unsupported('iinfo of %s' % name)
+    return IInfo(*table[name])
+
+
+@lib('attr:IInfo.max')
+def _iinfo_max(ctx, i):
+    return i.max
+
+
+@lib('attr:IInfo.min')
+def _iinfo_min(ctx, i):
+    return i.min
 
 
 class DTypeKind:
